@@ -81,7 +81,7 @@ def _rca_whitens(a, r):
 
 
 rc = REGISTRY['rca:RCA.fit']
-rc.ensures['components_-whiten-the-within-chunk-covariance'] = _rca_whitens
+rc.ensures['components_-whiten-the-within-chunk-covariance'] = body_only(_rca_whitens)
 C.unit('C09', 'rca:RCA.fit')
 
 
